@@ -332,6 +332,11 @@ def run_part(prop, pi, part, tier, base_seed, work, oc):
         env.update(t.get('env', {}))
         env.update(VERIF_TIER=tier, VERIF_PROP=prop, VERIF_CASES=cases, VERIF_SHARD=s, VERIF_SHARDS=shards,
                    VERIF_SEED_EFF=shard_seed(base_seed, pi, s))
+        if not part.get('race') and shards >= 4 and part['pkg'] == 'pipes' and not os.environ.get('VERIF_NOPIN'):
+            # one shard on one processor (and one on two when there are many): other wake-up orders inside the same scripts
+            procs = {1: '1', 11: '2'}.get(s)
+            if procs:
+                env['VERIF_GOMAXPROCS'] = procs
         args = []
         if part.get('kind', 'rapid') == 'rapid':
             args = ['-rapid.checks=%d' % cases, '-rapid.seed=%d' % shard_seed(base_seed, pi, s), '-rapid.nofailfile',
